@@ -43,4 +43,40 @@ def NoEmptyTextUnderPrune (c : JoinedCfg) (s : JoinedState) : Prop :=
 def Settled (E : Env) (k : Kind) (s : JoinedState) : Prop :=
   ∀ st ∈ s, ∃ r, setScalar E k (.str st.u) = .ok r ∧ r.st.u = st.u
 
+/-! ### MultiValue: "a MultiValue's scalar view is always its first member" -/
+
+/-- the scalar view the statement prescribes: text and value of the first member, `''` / None when
+    there is no member -/
+def firstView (s : MultiState) : Str × Native :=
+  match s.head? with
+  | none => ([], .none)
+  | some m => (m.u, m.value)
+
+/-- a member nobody has set: text `''`, value None -/
+def blankMember : SState := ⟨.none, .none, []⟩
+
+/-- writing the view's text writes the first member's text — nothing else; a MultiValue without
+    members first gets a blank one -/
+def writeFirstU (s : MultiState) (x : Str) : MultiState :=
+  match s with
+  | [] => [{ blankMember with u := x }]
+  | m :: rest => { m with u := x } :: rest
+
+/-- writing the view's value writes the first member's value — nothing else -/
+def writeFirstValue (s : MultiState) (x : Native) : MultiState :=
+  match s with
+  | [] => [{ blankMember with value := x }]
+  | m :: rest => { m with value := x } :: rest
+
+/-- a member state that some `set()` of the member type produces (value and text "in tandem") -/
+def SetReachable (E : Env) (k : Kind) (m : SState) : Prop :=
+  ∃ obj r, setScalar E k obj = .ok r ∧ r.st.value = m.value ∧ r.st.u = m.u
+
+/-! ### JoinedString: "value is always the separator-join of its members' texts" -/
+
+/-- the separator-join of a list of texts (core `List.intercalate`) -/
+def sepJoin (sep : Str) (texts : List Str) : Str := sep.intercalate texts
+
+/-! ### flat output: an element that is not flattenable and has no children contributes no pair -/
+
 end Flatland.C18.Spec
